@@ -20,6 +20,9 @@ def judge_query(stats: Stats, ast, doc, text, origin, known_quirks=(), extra=Non
         case["extra"] = extra
     if case_extra:
         case.update(case_extra)
+    if "membership.unjudged" in ctx.events:
+        stats.excluded["membership the documentation leaves undefined"] += 1
+        return None, ctx
     kind, res = lib.find(text, doc, env=env, filter_context=extra)
     if kind == "err":
         if isinstance(res, lib.JSONPathError):
